@@ -9,6 +9,7 @@ import vlib
 from vlib import Inconclusive, log
 
 REGISTRY = {}
+META = {}   # per-property manifest metadata contributed by plug-in modules (props_*.py)
 
 
 def prop(pid, level):
@@ -627,3 +628,18 @@ def c07(res, tier, seed, replay):
                         "puts, deletes and scans are fault points",
                         "torn writes inside bbolt's commit are not modelled (third party)",
                         "the memory backend has no rollback and is outside this property"]
+
+
+
+# --------------------------------------------------------------------------
+# plug-in modules: lib/props_*.py register further properties with @props.prop
+# and may add their manifest metadata to props.META
+def _load_plugins():
+    import glob
+    import importlib
+    here = os.path.dirname(os.path.abspath(__file__))
+    for f in sorted(glob.glob(os.path.join(here, "props_*.py"))):
+        importlib.import_module(os.path.basename(f)[:-3])
+
+
+_load_plugins()
